@@ -141,7 +141,7 @@ def body_per_class(case, ctx):
 # ------------------------------------------------------------------------------------------------------------------
 def strat_programs():
     from hypothesis import strategies as st
-    cfg = P.GenCfg(nq=4, max_items=8, max_depth=2, p_sub=22, p_rel=45, max_reps=3, globals_=True, global_zero=False,
+    cfg = P.GenCfg(nq=4, max_items=8, max_depth=2, p_sub=22, p_rel=45, max_reps=3, globals_=True, global_zero=False, entry_points=True,
                    p_share=15, max_total_leaves=40)
     return st.fixed_dictionaries({
         "program": P.program_strategy(cfg),
